@@ -170,3 +170,21 @@ Example C02_refuted_agreement_seek_from_stopped :
      pstate w' = Stopped /\ queue w' = [] /\ a_uri w' = Some 0 /\ a_state w' = Playing.
 Proof. vm_compute. repeat split; reflexivity. Qed.
 Print Assumptions C02_refuted_agreement_seek_from_stopped.
+
+(* Reports of the audio layer that the core has to ignore: a position report that does not
+   answer a pending seek, a state report of anything but `paused`, and a `paused` report while
+   the core is paused already - each leaves the whole world as it is (no state change, no event). *)
+Theorem C02_stray_position_report_ignored :
+  forall w, pending_position w = None -> on_position_changed w = (Ok tt, w).
+Proof. exact position_changed_noop. Qed.
+Print Assumptions C02_stray_position_report_ignored.
+
+Theorem C02_state_report_other_than_paused_ignored :
+  forall o n w, n <> Paused -> on_state_changed o n w = (Ok tt, w).
+Proof. exact state_changed_not_paused. Qed.
+Print Assumptions C02_state_report_other_than_paused_ignored.
+
+Theorem C02_paused_report_while_paused_ignored :
+  forall o w, pstate w = Paused -> on_state_changed o Paused w = (Ok tt, w).
+Proof. exact state_changed_paused_while_paused. Qed.
+Print Assumptions C02_paused_report_while_paused_ignored.
